@@ -107,6 +107,9 @@ def generate(tier, seed):
             base = tagged('tri', 'MeshTri1', p, t, rng, nbnd=1)
             for ops in ([['side', ['facets', 0]], ['side', ['adapt', m1]], ['adapt', m2]],
                         [['side', ['facets', 0]], ['side', ['refine', 1]], ['adapt', m2]],
+                        # an adaptive step whose result is dropped, then a UNIFORM step from the same object, then adaptive
+                        [['side', ['facets', 0]], ['side', ['adapt', m1]], ['refine', 1], ['adapt', m2]],
+                        [['side', ['adapt', m2]], ['side', ['adapt', m1]], ['refine', 1]],
                         [['oriented', 0], ['adapt', m1], ['adapt', m2]]):
                 r = dict(base)
                 r['ops'] = ops
